@@ -24,19 +24,20 @@ PID = "C16"
 COQ_HEADER = ("From stdpp Require Import gmap strings.\n"
               "From SK Require Import lib.Tok model.C15_Model model.C16_Model.\n"
               "Local Open Scope string_scope.\n")
-SHARD = 120
+SHARD = 120                    # re-computed by gen_cases: see _set_shard
 IMPL_TIMEOUT = 1500
-COQ_TIMEOUT = 1500
+COQ_TIMEOUT = 3000
 RULE = ("a case = one reaction network (list of reactions with ids, rules, coefficient maps; molecule labels; kept isolated "
         "species) + a list of views to round-trip (bipartite export flags / string printer+parser flags / species graph), or a "
         "batch of fuzzed texts for RXNSide.from_str / add_rxn_from_str / parse_rxns; non-trivial = at least one reaction and at "
         "least one round trip whose reconstruction succeeded, or a fuzz batch with at least one successfully parsed non-empty side; "
         "distinct = distinct (network, views) JSON")
 EXHAUSTIVE = {"quick": True, "thorough": True}
-EXPLANATION = ("Exhaustive sub-spaces: every set of <=2 (quick) / <=3 (thorough) reactions out of the 90 reactions between the 10 "
-               "complexes of molecularity <=2 over 3 species (coefficients scaled by PRNG factors from {1,2,3,12}, 2 rule names, PRNG "
-               "label triple and flag combination per network; the largest sets of a tier - pairs in quick, triples in thorough - go "
-               "through one of the three views each, in rotation, smaller sets through all three); every text of length <=4 (quick) / <=5 (thorough) over the alphabet "
+EXPLANATION = ("Exhaustive sub-spaces: every set of <=2 reactions out of the 90 reactions between the 10 "
+               "complexes of molecularity <=2 over 3 species, in the thorough tier also every set of 3 of the 30 reactions over 2 species "
+               "(plus a seeded sample of 12 000 triples of the 90) (coefficients scaled by PRNG factors from {1,2,3,12}, 2 rule names, PRNG "
+               "label triple and flag combination per network; in the quick tier a pair goes through one of the three "
+               "views, in rotation, everything else through all three); every text of length <=4 (quick) / <=5 (thorough) over the alphabet "
                "{A,2,0,space,+,*,_} through RXNSide.from_str; every bipartite export flag combination on a fixed set of networks. "
                "Everything else (random networks <=8 species / 10 reactions, fuzzed reaction lines, adversarial labels) is seeded random. "
                "Theorems: see coq/props/C16.v (round trips proved for all networks satisfying the stated decidable preconditions).")
@@ -607,6 +608,9 @@ def oracle(case):
 
 def shrink(case, fl):
     """Drop reactions / views while the oracle still fails."""
+    if case.get("hist") or "edits" in case:
+        return case          # a history is self-contained as generated; shrinking inside a worker whose module-level state
+                             # may already be poisoned by the defect could keep a case that does not fail in a fresh process
     cur = case
     changed = True
     while changed:
@@ -860,20 +864,43 @@ def _fuzz_line(rng):
     return "".join(rng.choice(LINE_PIECES) for _ in range(rng.randint(1, 9)))
 
 
+def _set_shard(n, tier):
+    """Memory: every coqc that loads std++ gmap needs ~450 MB before it evaluates anything, and the framework runs up to 16
+    of them at once (7.2 GB).  The cases are therefore cut into at most 16 (quick: one wave, ~7.5 GB) / 10 (thorough: ~5 GB) shards, so that at most
+    that many coqc processes exist at a time (~5-6 GB); a shard stays well under the per-shard time-out."""
+    global SHARD
+    k = 16 if tier == "quick" else 10
+    SHARD = max(60, -(-(n + 8) // k))
+
+
 def gen_cases(tier, rng):
+    cases = _gen_cases(tier, rng)
+    _set_shard(len(cases), tier)
+    return cases
+
+
+def _gen_cases(tier, rng):
     cases = []
     quick = tier == "quick"
     R = small_reactions()
-    # ---- exhaustive small scope: every set of <= 2 (quick) / <= 3 (thorough) of the 90 reactions
-    for k in range(0, 3 if quick else 4):
+    # ---- exhaustive small scope: every set of <= 2 of the 90 reactions over 3 species (both tiers); thorough adds every
+    #      set of 3 of the 30 reactions over 2 species (all views) and a seeded sample of 12 000 triples of the 90.
+    #      (Round 2 generated all 117 480 triples: the framework materialises every case and observable, which cost > 8 GB.)
+    for k in range(0, 3):
         for idx in itertools.combinations(range(len(R)), k):
             net = _small_net(rng, [R[i] for i in idx])
             vs = _std_views(rng)
-            if (quick and k == 2) or k == 3:
-                # the largest sets of a tier (pairs in quick, triples in thorough) are all generated but go through ONE of the
-                # three views each (rotating); smaller sets go through all three
+            if quick and k == 2:
+                # quick: every pair is generated but goes through ONE of the three views (rotating); singles through all three
                 vs = [vs[len(cases) % 3]]
             cases.append(dict(kind="exh-small-%d" % k, net=net, views=vs))
+    if not quick:
+        R2 = [(a, b) for (a, b) in R if all(i != 2 for i, _ in a + b)]          # 6 complexes over 2 species: 30 reactions
+        for idx in itertools.combinations(range(len(R2)), 3):
+            cases.append(dict(kind="exh-2species-3", net=_small_net(rng, [R2[i] for i in idx]), views=_std_views(rng)))
+        for t in range(12000):
+            vs = _std_views(rng)
+            cases.append(dict(kind="sample-small-3", net=_small_net(rng, [R[i] for i in rng.sample(range(len(R)), 3)]), views=[vs[t % 3]]))
     # ---- pure catalysts: a species with the same coefficient on both sides that is the ONLY species on one side
     #      (its self-arc is the only carrier of that side in the species graph), plus ordinary catalysis for contrast
     cat_labels = [("S", "E", "P"), ("CC(=O)O", "Fe(OH)3", "C#C")]
